@@ -479,6 +479,52 @@ def clone_prim(I, st, depth, callee, args, body, ln):
     return deref(I, st, args[0])
 
 
+def struct_eq(a, b):
+    """abstract structural equality of two abstract values -> abstract bool"""
+    if isinstance(a, Fl) or isinstance(b, Fl):
+        return D.fcmp("Eq", a, b)
+    if is_scalar(a) and is_scalar(b):
+        return D.cmpop("Eq", a, b)
+    if isinstance(a, Opaque) and isinstance(b, Opaque) and a == b:
+        return 1
+    if isinstance(a, Str) and isinstance(b, Str):
+        return int(a.s == b.s)
+    if isinstance(a, En) and isinstance(b, En):
+        out = set()
+        for va, fa in a.vs.items():
+            for vb, fb in b.vs.items():
+                if va != vb:
+                    out.add(0)
+                elif len(fa) != len(fb):
+                    return BOOL
+                else:
+                    r = 1
+                    for x, y in zip(fa, fb):
+                        c = struct_eq(x, y)
+                        if c == 0:
+                            r = 0
+                            break
+                        if c != 1:
+                            r = BOOL
+                    if r == 1:
+                        out.add(1)
+                    elif r == 0:
+                        out.add(0)
+                    else:
+                        out.update((0, 1))
+        return D.norm_set(frozenset(out)) if out else BOOL
+    if isinstance(a, Agg) and isinstance(b, Agg) and len(a.f) == len(b.f):
+        r = 1
+        for x, y in zip(a.f, b.f):
+            c = struct_eq(x, y)
+            if c == 0:
+                return 0
+            if c != 1:
+                r = BOOL
+        return r
+    return BOOL
+
+
 def eq_prim(op):
     def m(I, st, depth, callee, args, body, ln):
         ga = callee.get("ga", [])
@@ -506,17 +552,9 @@ def eq_prim(op):
         if isinstance(a, Str) and isinstance(b, Str):
             r = a.s == b.s
             return int(r if op == "Eq" else not r)
-        if isinstance(a, En) and isinstance(b, En):
-            # payload-free enums compare by variant
-            if all(not f for f in a.vs.values()) and all(not f for f in b.vs.values()):
-                sa, sb = set(a.vs), set(b.vs)
-                out = set()
-                if sa & sb:
-                    out.add(1)
-                if len(sa | sb) > 1:
-                    out.add(0)
-                r = D.norm_set(frozenset(out))
-                return r if op == "Eq" else D.unop("Not", r, "bool")
+        if isinstance(a, (En, Agg)) and isinstance(b, (En, Agg)):
+            r = struct_eq(a, b)
+            return r if op == "Eq" else D.unop("Not", r, "bool")
         return BOOL
     return m
 
@@ -925,6 +963,32 @@ def iter_fold(I, st, depth, callee, args, body, ln):
     return acc
 
 
+def _iter_any_all(is_any):
+    def m(I, st, depth, callee, args, body, ln):
+        r0 = args[0]
+        it, f = _it(I, st, r0), args[1]
+        if it.kind == "exact":
+            out = set()
+            decided = None
+            for x in it.items:
+                r = I.call_value(st, depth, f, [x], body, ln)
+                if r == (1 if is_any else 0):
+                    decided = 1 if is_any else 0
+                    break
+                if not (r == (0 if is_any else 1)):
+                    out.add("maybe")
+            if isinstance(r0, Ref):
+                I.store_to(st, r0.alloc, r0.path, It("exact", ()), False, body, ln)
+            if decided is not None and "maybe" not in out:
+                return decided
+            if decided is None and not out:
+                return 0 if is_any else 1
+            return BOOL
+        _apply_rep(I, st, depth, f, [[x] for x in it.items], body, ln)
+        return BOOL
+    return m
+
+
 def iter_collect(I, st, depth, callee, args, body, ln):
     it = _it(I, st, args[0])
     if it.kind == "exact":
@@ -973,8 +1037,19 @@ def iter_next(I, st, depth, callee, args, body, ln):
 def slice_contains(I, st, depth, callee, args, body, ln):
     v = deref(I, st, args[0])
     x = deref(I, st, args[1])
-    if isinstance(v, Arr) and not v.e:
-        return 0
+    if isinstance(v, Arr):
+        if not v.e:
+            return 0
+        if is_scalar(x) and all(is_scalar(y) for y in v.e):
+            out = set()
+            for y in v.e:
+                c = D.cmpop("Eq", y, x)
+                if c == 1:
+                    return 1
+                if D.contains(c, 1):
+                    out.add(1)
+            out.add(0)
+            return D.norm_set(frozenset(out)) if 1 in out else 0
     return BOOL
 
 
@@ -1090,6 +1165,8 @@ def from_residual(I, st, depth, callee, args, body, ln):
 
 
 TABLE.update({
+    "std::time::Instant::now": ignore_top,
+    "std::time::Instant::elapsed": ignore_top,
     "core::cmp::Ord::cmp": ignore_top,
     "core::cmp::PartialOrd::partial_cmp": ignore_top,
     "core::hash::Hash::hash": ignore_unit,
@@ -1114,6 +1191,8 @@ TABLE.update({
     "core::iter::traits::iterator::Iterator::for_each": iter_for_each,
     "core::iter::traits::iterator::Iterator::fold": iter_fold,
     "core::iter::traits::iterator::Iterator::collect": iter_collect,
+    "core::iter::traits::iterator::Iterator::any": _iter_any_all(True),
+    "core::iter::traits::iterator::Iterator::all": _iter_any_all(False),
     "core::iter::traits::iterator::Iterator::next": iter_next,
     "std::collections::hash::map::HashMap::<K, V>::new": hashmap_new,
     "std::collections::hash::map::HashMap::<K, V, S, A>::insert": hashmap_insert,
@@ -1128,7 +1207,44 @@ TABLE.update({
 })
 
 # models selected on the resolved callee (impl-specific)
+def option_eq(op):
+    def m(I, st, depth, callee, args, body, ln):
+        a = deref(I, st, args[0])
+        b = deref(I, st, args[1])
+        if isinstance(a, En) and isinstance(b, En):
+            out = set()
+            for va, fa in a.vs.items():
+                for vb, fb in b.vs.items():
+                    if va != vb:
+                        out.add(0)
+                    elif not fa:
+                        out.add(1)
+                    else:
+                        x, y = fa[0], fb[0]
+                        if isinstance(x, En) and isinstance(y, En) and all(not f for f in x.vs.values()) \
+                                and all(not f for f in y.vs.values()):
+                            if set(x.vs) & set(y.vs):
+                                out.add(1)
+                            if len(set(x.vs) | set(y.vs)) > 1:
+                                out.add(0)
+                        elif is_scalar(x) and is_scalar(y):
+                            c = D.cmpop("Eq", x, y)
+                            for k in (0, 1):
+                                if D.contains(c, k):
+                                    out.add(k)
+                        elif isinstance(x, Opaque) and x == y:
+                            out.add(1)
+                        else:
+                            out.update((0, 1))
+            r = D.norm_set(frozenset(out))
+            return r if op == "Eq" else D.unop("Not", r, "bool")
+        return BOOL
+    return m
+
+
 RES_TABLE = {
+    "<core::option::Option<T> as core::cmp::PartialEq>::eq": option_eq("Eq"),
+    "<core::option::Option<T> as core::cmp::PartialEq>::ne": option_eq("Ne"),
     "<alloc::vec::Vec<T, A> as core::ops::deref::Deref>::deref": vec_deref,
     "<alloc::vec::Vec<T, A> as core::ops::deref::DerefMut>::deref_mut": vec_deref,
     "<alloc::vec::Vec<T, A> as core::clone::Clone>::clone": vec_clone,
